@@ -889,8 +889,10 @@ class CodeGenerator:
         ) and isinstance(to_type, (ast.IntegerType, ast.FloatType)):
             # Any numeric cast
             return self.emit(ir.Cast(ar, "cast", self.get_ir_type(to_type)))
-        else:  # pragma: no cover
-            raise NotImplementedError(f"Cannot cast {from_type} to {to_type}")
+        else:
+            raise SemanticError(
+                f"Cannot cast {from_type} to {to_type}", expr.loc
+            )
 
     def gen_function_call(self, expr):
         """Generate code for a function call"""
